@@ -7,6 +7,7 @@ import (
 	"fmt"
 	"math/rand"
 	"net/http"
+	"net/http/httptest"
 	"net/url"
 	"runtime/debug"
 	"strings"
@@ -14,6 +15,8 @@ import (
 	"time"
 
 	"github.com/oauth2-proxy/oauth2-proxy/v7/pkg/apis/options"
+	"github.com/oauth2-proxy/oauth2-proxy/v7/pkg/logger"
+	"github.com/oauth2-proxy/oauth2-proxy/v7/pkg/validation"
 )
 
 func init() { vDrivers["C19"] = driveC19 }
@@ -302,4 +305,71 @@ func driveC19(t *testing.T, out *vEmitter) {
 		out.Stat("requests", count)
 	}
 	_ = rand.Int
+	vC19LoggingFormats(t, out)
+}
+
+// logging formats are operator-supplied templates rendered while a request is handled: a format that
+// cannot be rendered must be refused by validation, not accepted and then blow up in the middle of
+// a request (fix F20).
+func vC19LoggingFormats(t *testing.T, out *vEmitter) {
+	defer func() {
+		logger.SetStandardTemplate(logger.DefaultStandardLoggingFormat)
+		logger.SetAuthTemplate(logger.DefaultAuthLoggingFormat)
+		logger.SetReqTemplate(logger.DefaultRequestLoggingFormat)
+	}()
+	formats := []string{"{{.Nope}}", "{{.Message.Field}}", "{{.Timestamp.Year}}", `{{template "missing"}}`, "{{index .Nope 1}}", "{{.Client}} {{.Upstream}} {{.File}}",
+		"[{{.Timestamp}}] plain text", "{{len .Timestamp}}", ""}
+	refused, accepted := 0, 0
+	for _, which := range []string{"standard", "auth", "request"} {
+		for _, f := range formats {
+			o := baseTestOptions()
+			o.UpstreamServers = options.UpstreamConfig{Upstreams: []options.Upstream{{ID: "static", Path: "/", Static: true}}}
+			o.Logging.StandardEnabled, o.Logging.AuthEnabled, o.Logging.RequestEnabled = true, true, true
+			switch which {
+			case "standard":
+				o.Logging.StandardFormat = f
+			case "auth":
+				o.Logging.AuthFormat = f
+			case "request":
+				o.Logging.RequestFormat = f
+			}
+			panicked := ""
+			validated := false
+			func() {
+				defer func() {
+					if r := recover(); r != nil {
+						panicked = fmt.Sprint(r)
+					}
+				}()
+				if err := validation.Validate(o); err != nil {
+					return
+				}
+				validated = true
+				p, err := NewOAuthProxy(o, func(string) bool { return true })
+				if err != nil {
+					return
+				}
+				for _, tg := range []string{"/page", "/oauth2/sign_in", "/oauth2/callback?code=c&state=x:/y", "/oauth2/auth"} {
+					req := httptest.NewRequest("GET", tg, nil)
+					req.Header.Set("Authorization", "Basic "+base64.StdEncoding.EncodeToString([]byte("u:p")))
+					p.ServeHTTP(httptest.NewRecorder(), req)
+				}
+			}()
+			if validated {
+				accepted++
+			} else {
+				refused++
+			}
+			if panicked != "" && validated {
+				out.Violation("logging-format/"+which+"/panic", "a logging format accepted by validation made request handling panic",
+					map[string]interface{}{"which": which, "format": f, "panic": panicked})
+			}
+			out.Obs("logging-format/"+which, validated, vL(vS(which), vS(f), vBool(validated), vBool(panicked != "")))
+		}
+	}
+	out.Stat("logging_formats_refused", refused)
+	out.Stat("logging_formats_accepted", accepted)
+	if accepted == 0 {
+		t.Fatalf("no logging format was accepted: the sweep checks nothing")
+	}
 }
